@@ -21,6 +21,8 @@ namespace cs
             F_SIZE_VALUE,
             F_ILIST,
             F_RANGE,
+            F_BYVALUE, // like F_SIZE_VALUE, the first value is taken by value: its copy is made before the
+                       // joint_type base exists (a failure there finds the block without a joint stack)
             FORMS
         };
 
@@ -49,6 +51,9 @@ namespace cs
             struct range_tag
             {
             };
+            struct byvalue_tag
+            {
+            };
             int                 value;
             fm::joint_array<E1> a;
             fm::joint_array<E2> b;
@@ -70,6 +75,10 @@ namespace cs
                const std::vector<E3>& v3)
             : base(tag), value(x.base), a(v1.begin(), v1.end(), *this), b(v2.begin(), v2.end(), *this),
               c(v3.begin(), v3.end(), *this)
+            {
+            }
+            JT(fm::joint tag, byvalue_tag, const Args& x, E1 v1, const E2& v2, const E3& v3)
+            : base(tag), value(x.base), a(x.n[0], v1, *this), b(x.n[1], v2, *this), c(x.n[2], v3, *this)
             {
             }
             JT(fm::joint tag, const JT& o) : base(tag), value(o.value), a(o.a, *this), b(o.b, *this), c(o.c, *this)
@@ -109,6 +118,12 @@ namespace cs
                 for (auto& e : o.vec)
                     vec.push_back(e);
                 str.assign(o.str.begin(), o.str.end());
+            }
+            // "move with allocator": the containers must move into the joint memory of the new object
+            JV(fm::joint tag, JV&& o)
+            : base(tag), value(o.value), vec(std::move(o.vec), fm::joint_allocator(*this)),
+              str(std::move(o.str), fm::joint_allocator(*this))
+            {
             }
         };
 
@@ -256,8 +271,10 @@ namespace cs
 
         // guarded creation: C20 bookkeeping + C11 "does not fit -> out_of_fixed_memory"
         template <class F>
-        bool guarded(Ctx& c, const char* what, long elements, long k, bool fits, F make)
+        bool guarded(Ctx& c, const char* what, long elements, long k, bool fits, F make, long temps = 0)
         {
+            // temps: constructions of temporaries that precede the elements (gone again when make() returns)
+            const long constructions = elements + temps;
             auto& ct     = ctl();
             auto  alive0 = ct.alive.size();
             auto  live0  = c.env->leaf[0].live.size() + c.env->leaf[1].live.size();
@@ -306,7 +323,7 @@ namespace cs
                 if (c.env->leaf[0].live.size() + c.env->leaf[1].live.size() != live0)
                     violate("C20,C11", "memory_leaked", "%s: the block obtained for the object was not given back",
                             what);
-                if (oom && fits && !(k >= 1 && k <= elements))
+                if (oom && fits && !(k >= 1 && k <= constructions))
                     violate("C11", "spurious_out_of_memory", "%s: out_of_fixed_memory although the additional "
                                                              "size is sufficient",
                             what);
@@ -320,7 +337,7 @@ namespace cs
                 violate("C11", "overrun_accepted", "%s: the members need more than the additional size, yet "
                                                    "creation succeeded",
                         what);
-            if (k >= 1 && k <= elements)
+            if (k >= 1 && k <= constructions)
                 violate("C20", "exception_swallowed", "%s: failure injected at construction %ld of %ld, no "
                                                       "exception arrived",
                         what, k, elements);
@@ -413,11 +430,18 @@ namespace cs
                                       sp = std::make_shared<fm::joint_ptr<T, LeafA>>(
                                           fm::allocate_joint<T>(al, js, typename T::ilist_tag{}, x, v1, v2, v3));
                                       break;
+                                  case F_BYVALUE:
+                                      sp = std::make_shared<fm::joint_ptr<T, LeafA>>(
+                                          fm::allocate_joint<T>(al, js, typename T::byvalue_tag{}, x, v1, v2, v3));
+                                      break;
                                   default:
                                       sp = std::make_shared<fm::joint_ptr<T, LeafA>>(
                                           fm::allocate_joint<T>(al, js, typename T::range_tag{}, x, r1, r2, r3));
                                   }
-                              });
+                              },
+                              form == F_BYVALUE ? 1 : 0);
+            if (form == F_BYVALUE && k == 1)
+                stats().hit("reach.joint_failure_before_base");
             if (!ok)
                 return;
             // the single upstream request: sizeof(T) + additional at alignof(T)
@@ -483,12 +507,17 @@ namespace cs
                 if (o.kind == "mkj")
                 {
                     // mkj type form n1 n2 n3 extra k
-                    int         type = int(o.arg(0)) % 3, form = int(o.arg(1)) % FORMS;
+                    int         type = int(o.arg(0)) % 3, form = int(o.arg(1)) % 4;
                     std::size_t n1 = std::size_t(o.arg(2)) % 9, n2 = std::size_t(o.arg(3)) % 9,
                                 n3   = std::size_t(o.arg(4)) % 5;
                     long        extra = o.arg(5);
                     long        tot   = long(n1 + n2 + n3);
                     long        k     = tot ? o.arg(6) % (tot + 2) : 0;
+                    if (o.arg(8) & 1)
+                    {
+                        form = F_BYVALUE;
+                        k    = o.arg(6) % (tot + 3);
+                    }
                     int         base  = int(oi) * 10;
                     int         leaf  = int(o.arg(7)) & 1;
                     switch (type)
@@ -569,6 +598,68 @@ namespace cs
                         h.destroy();
                     else
                         check_destroy(c, h, o.arg(1) % 2 ? "reset()" : "destruction");
+                }
+                else if (o.kind == "jvm" && !c.hs.empty())
+                {
+                    // a joint object with containers is moved into a new joint object (other allocator object)
+                    using T = JV<EA>;
+                    std::vector<std::size_t> cand;
+                    for (std::size_t q = 0; q < c.hs.size(); ++q)
+                        if (c.hs[q].type == 9 && !c.hs[q].empty)
+                            cand.push_back(q);
+                    if (cand.empty())
+                        continue;
+                    auto i = cand[std::size_t(o.arg(0)) % cand.size()];
+                    auto h = c.hs[i];
+                    auto sp         = std::static_pointer_cast<fm::joint_ptr<T, LeafA>>(h.ptr);
+                    auto before     = h.contents();
+                    auto str_before = std::string((*sp)->str.begin(), (*sp)->str.end());
+                    auto additional = fm::detail::get_stack(**sp).capacity(fm::detail::get_memory(**sp));
+                    int  to         = int(o.arg(1)) & 1;
+                    env.log.begin_op(0);
+                    auto np = std::make_shared<fm::joint_ptr<T, LeafA>>(
+                        fm::allocate_joint<T>(env.la[to], fm::joint_size(additional), std::move(**sp)));
+                    ++c.cases;
+                    auto& n2 = **np;
+                    auto  lo = reinterpret_cast<const char*>(&n2) + sizeof(T), hi = lo + additional;
+                    auto  vd = reinterpret_cast<const char*>(n2.vec.data());
+                    if (n2.vec.capacity() && (vd < lo || vd + n2.vec.size() * sizeof(EA) > hi))
+                        violate("C11,C10", "outside_block", "a vector moved into a new joint object (with its "
+                                                            "joint_allocator) keeps its storage outside the new "
+                                                            "object's joint memory");
+                    if (n2.str.size() > 15 && (n2.str.data() < lo || n2.str.data() + n2.str.size() > hi))
+                        violate("C11,C10", "outside_block", "a string moved into a new joint object keeps its "
+                                                            "storage outside the new object's joint memory");
+                    // the source goes away: the new object must be independent of it
+                    c.hs.erase(c.hs.begin() + (long)i);
+                    sp->reset();
+                    std::vector<int> after;
+                    for (auto& e : n2.vec)
+                        after.push_back(e.value);
+                    if (after != before || std::string(n2.str.begin(), n2.str.end()) != str_before)
+                        violate("C11", "move_differs", "contents of the moved joint containers changed when the "
+                                                       "source object was destroyed");
+                    if (!env.log.problem.empty())
+                        violate("C11,C09", "release_mismatch", "move of joint containers: %s",
+                                env.log.problem.c_str());
+                    Handle nh;
+                    nh.ptr      = np;
+                    nh.type     = 9;
+                    nh.elements = long(after.size());
+                    nh.destroy  = [np] { np->reset(); };
+                    nh.contents = [np]
+                    {
+                        std::vector<int> v;
+                        if (*np)
+                            for (auto& e : (*np)->vec)
+                                v.push_back(e.value);
+                        return v;
+                    };
+                    nh.mutate       = [] {};
+                    nh.layout_check = [](const char*) {};
+                    nh.clone        = [](int) { return Handle(); };
+                    c.hs.push_back(nh);
+                    stats().hit("reach.joint_containers_moved");
                 }
                 else if (o.kind == "jv")
                 {
@@ -696,6 +787,7 @@ namespace cs
                     h.mutate       = [] {};
                     h.layout_check = [](const char*) {};
                     h.clone        = [](int) { return Handle(); };
+                    h.empty        = false;
                     c.hs.push_back(h);
                     stats().hit("reach.joint_containers");
                 }
